@@ -2,6 +2,7 @@
 (* Judges what the real resource-pack handlers did, call by call.  Lines:
      {"ev":"reset","ver":<client protocol>}      a fresh handler for that client; its kind is ModeOf(ver)
      {"ev":"op","op":"queue"|"response"|"remove"|"clear","pack":name,"sid":id,"st":status,
+      "fail":""|"prompt"|"report",   the write fault injected during the call (writes are logged as attempted)
       "returned":bool,     the call came back before the watchdog fired (confirmed by a re-run)
       "panicked":bool,     the call ended in a panic
       "prompts":[names],   resource pack requests written to the client during the call
@@ -19,7 +20,7 @@ TInit == CursorInit /\ q = <<>> /\ qm = [i \in Ids |-> <<>>] /\ decl = FALSE /\ 
 TReset == /\ IsEv("reset")
           /\ q' = <<>> /\ qm' = [i \in Ids |-> <<>>] /\ decl' = FALSE /\ ver' = Rec.ver /\ mode' = ModeOf(Rec.ver) /\ UNCHANGED unused
 
-Op(r) == [op |-> r.op, pack |-> r.pack, sid |-> r.sid, st |-> r.st]
+Op(r) == [op |-> r.op, pack |-> r.pack, sid |-> r.sid, st |-> r.st, fail |-> r.fail]
 Out(r) == [prompts |-> r.prompts, reports |-> r.reports, handled |-> r.handled]
 
 \* the queue after the call is determined by the call and the prompts it wrote
